@@ -241,4 +241,4 @@ func runC09ES(c C09ESCase) *vkit.Outcome {
 
 var propC09ES = vkit.NewProp([]string{c09}, "c09esgiveup", genC09ES, runC09ES)
 
-func TestVerifC09ElasticGiveUp(t *testing.T) { propC09ES.Check(t) }
+func TestVerifC09ElasticGiveUp(t *testing.T) { propC09ES.CrashFile = true; propC09ES.Check(t) }
